@@ -386,6 +386,9 @@ def tmul_c(a, b):
 
 
 def replay_case(ctx, case):
+    if case.get('op') == 'utpclass-table':
+        import utpcheck
+        return utpcheck.replay(case)
     return check(case)
 
 
@@ -406,6 +409,8 @@ def permuted_lu_cases(rng):
 
 
 def run(ctx):
+    import utpcheck
+    utpcheck.run(ctx, 'C08')
     rng = ctx.rng
     for c in permuted_lu_cases(rng):
         ctx.evaluations += 1
